@@ -6,7 +6,11 @@ A scenario = curve (3 standard bign curves) x protocol {BMQV, BSTS, BPACE, BAUTH
 tapes x ONE adversary action:
     none | flip mask m of octet j of message Mi (every i, every j) | the point carried by Mi replaced by (x, y+1), (p, y), (x, p),
     (0, 0), a twist point, (x+1, y), -P, G | variable-length messages cut / extended | peers hold different passwords, private
-    keys, certificates, hello messages | certificate validator call k answers an error
+    keys, certificates, hello messages | certificate validator call k answers an error | AUTHENTICATED INSIDER: the legitimate peer
+    (it holds the session keys K1, K2; the reference model derives them from the tapes) sends BSTS M2 / BSTS M3 / BAUTH M3 with a
+    correct tag and a correctly encrypted body whose number s is q, q + 1, 2^2l - 1 (on a general base, and as the alias r + q of an
+    honest s = r on bases engineered for r = 0, 1, 2^2l - 1 - q), or whose certificate carries an off-curve key, another party's key,
+    or is one octet long; control: the honest s re-sealed by the model
 executed step by step on fresh objects (bake states may not be copied: a state is its history) and through RunA / RunB against a
 scripted read_i / write_i channel replaying the recorded transcript, where additionally every read / write call index answers an
 error, a short read and a premature end of data.
@@ -20,6 +24,9 @@ Oracle.
               x-coordinates only, so the negated point is accepted with equal keys BY THE STANDARD; recorded as an observation,
               checked to behave exactly so (a deviation is reported as an observation, not as a violation).
   val         the step that called the failing validator returns an error.
+  insider     s outside {0..q-1} (STB 34.101.66 7.5 / STB 34.101.79 BAUTH: "s in {0, 1, ..., q - 1}") or a foreign / invalid certificate:
+              the receiving step returns an error (so the run never ends with both parties OK and equal keys); the control is
+              accepted with the model's key; the same through bakeBSTSRunA / RunB, with nothing left allocated.
   drivers     honest: ERR_OK, key and written messages equal to the step-by-step run, nothing left allocated, whole transcript
               consumed; error answer of the channel -> that error comes back, nothing left allocated; short read / premature
               end -> never "ERR_OK with the honest key while part of the transcript was not consumed"; altered incoming message
@@ -419,6 +426,94 @@ def driver_job(job):
                         viol('run:%s:undetected' % fn, rec, '%s: ERR_OK with the honest key' % lab)
     return out
 
+# ------------------------------------------------------------------ authenticated insider
+def insider_groups(tier):
+    """the insider cases of the catalogue, grouped by base dialogue (one reference-model session per group)"""
+    groups = collections.OrderedDict()
+    for fname, c in cat_bake.insider_cases(tier):
+        groups.setdefault((fname, c['act_i']) + cat_bake._base_tag(c), []).append((fname, c))
+    return list(groups.values())
+
+def ins_label(c):
+    return '%s l=%d M%d %s' % (c['proto'], c['l'], c['act_i'], c['ins'])
+
+def judge_insider(c, res):
+    """-> (outcome label, violation key suffix or None, message, observation)"""
+    recv = cat_bake.INS_RECV[(c['proto'], c['act_i'])]
+    v = cat_bake.insider_verdict(c)
+    control = c['ins'].startswith('control')
+    if v is None or (v[0] is None) != control:
+        raise RuntimeError('reference model verdict %r does not fit the class of %s' % (v, ins_label(c)))
+    steps = ' '.join(res['steps'])
+    if res['ret']:
+        return 'error', 'error', 'a step of the honest part of the dialogue failed with %s [%s]' % (ename(res['ret']), steps), None
+    if not res['sync']:
+        return 'desync', 'desync', ('the honest M%d of the implementation differs from the reference model\'s: the authenticated message could not be formed [%s]'
+                                    % (c['act_i'], steps)), None
+    if control:
+        if res['rejected'] or res['keyA'] != res['keyB'] or res['keyA'] != v[1]:
+            return 'control refused', 'control', ('the honest number s and the genuine certificate, sealed by the reference model under the session keys: %s returned %s, '
+                                                   'keyA=%s keyB=%s model=%s [%s]' % (recv, ename(res['rej']), res['keyA'].hex(), res['keyB'].hex(), v[1].hex(), steps)), None
+        return 'accepted (control)', None, None, None
+    what = ('s = %s (>= q)' % c['ins'].replace('alias:', 'honest s + q = ')) if c.get('ins_s') is not None else 'certificate: ' + c['ins']
+    if not res['rejected']:
+        eq = res['keyA'] == res['keyB'] != b''
+        return 'ACCEPTED', 'accepted', ('M%d with a correct confirmation tag and a correctly encrypted body, %s: %s returned ERR_OK%s; the standard admits only '
+                                        's in {0..q-1} and a certificate of the sender\'s own key [%s]' % (c['act_i'], what, recv, ' and both parties hold the same key' if eq else '', steps)), None
+    obs = None
+    if res['rej'] != E.get(v[0]):
+        obs = '%s: %s refuses with %s, the reference model with ERR_%s' % (ins_label(c), recv, ename(res['rej']), v[0])
+    return '%s=%s' % (recv, ename(res['rej'])), None, None, obs
+
+def insider_run(L, c):
+    """the same insider message through the Run driver of the receiving side -> (outcome, key suffix or None, message)"""
+    base = {k: v for k, v in c.items() if not (k.startswith('act') or k.startswith('ins'))}
+    with vf.Arena(L) as A:
+        hon = dialogue(L, base, A)
+    if first_error(hon['trace'])[1]:
+        return 'honest error', 'run:error', 'the honest dialogue failed'
+    side = 'B' if c['act_i'] == 2 else 'A'
+    msgs = list(hon['msgs'])
+    msgs[c['act_i'] - 1] = cat_bake.insider(c)['msg']
+    sent = dict(zip('AB', split_msgs(c['proto'], msgs)))
+    r = monitored_run(L, c, side, sent['A' if side == 'B' else 'B'])
+    fn = 'bake%sRun%s' % (c['proto'], side)
+    if r['live']:
+        return 'leak', 'run:leak', '%s: returned %s and left %d allocation(s) behind' % (fn, ename(r['ret']), r['live'])
+    if c['ins'].startswith('control'):
+        if r['ret'] or r['key'] != hon['keyA']:
+            return 'control refused', 'run:control', '%s: the control message (honest s, genuine certificate, sealed by the model) gives %s' % (fn, ename(r['ret']))
+        return '%s accepted (control)' % fn, None, None
+    if r['ret'] == 0:
+        return 'ACCEPTED', 'run:accepted', '%s returned ERR_OK for an authenticated M%d carrying %s' % (fn, c['act_i'], c['ins'])
+    return '%s=%s' % (fn, ename(r['ret'])), None, None
+
+def insider_job(group):
+    L = common.lib(CFG)
+    out = {'n': 0, 'outcomes': collections.Counter(), 'viol': [], 'obs': [], 'classes': collections.Counter()}
+    for fname, c in group:
+        rec = {'cfg': CFG, 'kind': 'ins', 'fn': fname, 'case': cat.enc_case(c)}
+        res = common.run_fn(L, fname, c)
+        lab, key, msg, obs = judge_insider(c, res)
+        kind = c['ins'].split(':')[0] if not c['ins'].startswith('cert') else c['ins']
+        out['n'] += 1
+        out['classes'][kind] += 1
+        out['outcomes']['%s insider M%d %s -> %s' % (c['proto'], c['act_i'], kind, lab)] += 1
+        if msg:
+            out['viol'].append(('insider:%s:M%d:%s:%s' % (c['proto'], c['act_i'], kind, key), rec, msg + '  [' + ins_label(c) + ' ' + cat.short(c) + ']'))
+        if obs:
+            out['obs'].append(obs)
+        if c['proto'] == 'BSTS' and not res['ret'] and res['sync']:
+            lab, key, msg = insider_run(L, c)
+            out['n'] += 1
+            out['outcomes']['%s insider M%d %s -> %s' % (c['proto'], c['act_i'], kind, lab)] += 1
+            if msg:
+                out['viol'].append(('insider:%s:M%d:%s:%s' % (c['proto'], c['act_i'], kind, key), dict(rec, kind='insrun'), msg + '  [' + ins_label(c) + ']'))
+    return out
+
+def _replay_insrun(rec):
+    return insider_run(common.lib(rec.get('cfg', CFG)), cat.dec_case(rec['case']))[2]
+
 # ------------------------------------------------------------------ top level
 def collect(chk, jobs, res, part, keyfn):
     n = 0; classes = collections.Counter()
@@ -443,7 +538,7 @@ def collect(chk, jobs, res, part, keyfn):
 def run(tier):
     chk = vf.Check(PROP, tier, deadline_s=900 if tier == 'quick' else 3600)
     # 1. honest dialogues (catalogue corpus), relational oracle + reference model
-    cases = cat_bake.gen_cases(tier)
+    cases = [x for x in cat_bake.gen_cases(tier) if x[1].get('act') != 'insider']
     honest_part(chk, cases)
     # 2. one adversary action per run, step by step
     jobs = tamper_jobs(tier)
@@ -453,6 +548,11 @@ def run(tier):
     djobs = driver_jobs(tier)
     res = vf.pmap(driver_job, djobs, case_timeout=900)
     collect(chk, djobs, res, 'run_drivers', lambda j: '%s:%s' % (j[0]['proto'], j[1]))
+    # 4. the authenticated insider: out-of-range s / foreign certificate behind a correct tag (messages sealed by the reference model)
+    igroups = insider_groups(tier)
+    res = vf.pmap(insider_job, igroups, case_timeout=900)
+    collect(chk, [(g[0][1], 'insider') for g in igroups], res, 'authenticated_insider', lambda j: '%s:insider' % j[0]['proto'])
+    chk.sample({'scenario': ins_label(igroups[0][1][1]), 'oracle': 'B.Step4 must return an error: s = q is outside {0..q-1} although tag and encryption are correct'})
     b0 = jobs[0][0]
     chk.sample({'scenario': short_sc(dict(b0, act='flip', act_i=1, act_j=0, act_m=1)), 'oracle': 'invalid point -> A.Step3 must fail'})
     chk.sample({'scenario': short_sc(dict(b0, val_fail=3, val_code=E['BAD_CERT'])), 'oracle': 'A.Step3 must fail'})
@@ -463,10 +563,14 @@ def run(tier):
     chk.assumptions += ['certificates: opaque prefix || <Q>_4l with the validator of bake_test.c (last l/2 octets); the validator is drv/vh_c04.c',
                         'the peer of a Run driver is the recorded step-by-step transcript (read never crosses a message boundary, ERR_MAX at the end of a message that is shorter than the request)',
                         'tamper classes are decided by ref/ecp.py (on-curve test) on the altered octets; filler values only in keys, tapes, hello, passwords',
-                        'BAUTH has no vector-gated reference model: relational oracle only']
+                        'BAUTH: the reference model (ref/bake.py) has no published vector; it reproduces every honest BAUTH dialogue of the corpus octet for octet, the deciding oracle stays relational',
+                        'authenticated insider: the session keys K1, K2 come from the reference model run on the same tapes; a case counts only if the model\'s honest message '
+                        'equals the real one (sync), so that the insider message is authentic by construction; the control (honest s re-sealed) must be accepted']
     return chk.finish('C04', 'curve x protocol x (kca,kcb) x hello x tape x one adversary action: every (message, octet, mask) flip, point substitutions on every '
                       'point-carrying message, length changes of variable-length messages, mismatched passwords/keys/certificates/hello, every validator call failing; '
-                      'drivers: every channel call index x fault kinds, flips of incoming messages; states = base scenarios x families, transitions = complete dialogues executed')
+                      'drivers: every channel call index x fault kinds, flips of incoming messages; authenticated insider: 3 levels x {BSTS M2, BSTS M3, BAUTH M3} x '
+                      '{s = q, q+1, 2^2l-1 on a general base and as alias of an honest s = 0, 1, 2^2l-1-q; 3 certificate alterations; 4 controls}, stepwise and through RunA/RunB; '
+                      'states = base scenarios x families, transitions = complete dialogues executed')
 
 def replay(rec):
     k = rec.get('kind')
@@ -484,6 +588,12 @@ def replay(rec):
         with vf.Arena(L) as A:
             d = dialogue(L, c, A)
         return judge(c, cls, d, hk)[1]
+    if k == 'ins':
+        cc = cat.dec_case(rec['case'])
+        return judge_insider(cc, common.run_fn(L, rec['fn'], cc))[2]
+    if k == 'insrun':
+        r = vf.pmap(_replay_insrun, [rec], nproc=1)[0]
+        return ('driver crashed: %s' % str(r)[:500]) if isinstance(r, dict) else r
     if k == 'run':
         r = vf.pmap(replay_run, [rec], nproc=1)[0]
         if isinstance(r, dict):
